@@ -36,7 +36,7 @@ def spec(tier):
     tfix = dict(n1=3, n2=1, prio2=1, l0=0, l1=3, l2=2, l3=6, k1=0, k2=1, k3=2, v0=3, v1=5, v2=8, v3=0, arr1=4, arr2=4, e3=False, e4=False, e5=False)
     for w in ("multiparent", "multiroot", "mem0"):
         obs.append(twin(f"roundtrip_{w}", "c14.write_read", tsym, tfix, w))
-    for kind in range(8):
+    for kind in range(14):
         obs.append(CH(name=f"malformed_kind{kind}", harness="c14.malformed", sym=dict(row=I(0, 5)), fixed=dict(kind=kind), timeout=300, group="malformed"))
     obs.append(twin("malformed_control", "c14.malformed", dict(row=I(0, 5)), dict(kind=7), "control"))
     return PropSpec(
